@@ -68,6 +68,26 @@ fn full_alphabet() -> Vec<Op> {
     a
 }
 
+/// The graph suites visit every transition of the model's abstract state graph
+/// once, so their cost is linear in the alphabet: they also carry the rarely
+/// used calls.
+fn graph_alphabet() -> Vec<Op> {
+    let mut a = full_alphabet();
+    a.extend([
+        Op::SendNone(0),
+        Op::SendNone(1),
+        Op::SendNone(2),
+        Op::CloneFrom(Side::S),
+        Op::CloneFrom(Side::R),
+        Op::DropHandleUnwinding(Side::S),
+        Op::DropHandleUnwinding(Side::R),
+        Op::MoveStream(0),
+        Op::SendOT(1),
+        Op::RecvT(2),
+    ]);
+    a
+}
+
 pub fn suites(check: &str, thorough: bool) -> (Vec<SeqSuite>, String) {
     let caps4 = vec![Cap::B(0), Cap::B(1), Cap::B(2), Cap::Unbounded];
         match check {
@@ -112,7 +132,7 @@ pub fn suites(check: &str, thorough: bool) -> (Vec<SeqSuite>, String) {
             v.push(SeqSuite {
                 graph: true,
                 name: "c18-graph",
-                alphabet: full_alphabet(),
+                alphabet: graph_alphabet(),
                 depth: if thorough { 6 } else { 4 },
                 caps: caps4.clone(),
                 flavours: vec![(A, A), (S, S)],
@@ -185,6 +205,8 @@ pub fn suites(check: &str, thorough: bool) -> (Vec<SeqSuite>, String) {
                     }
                     a.push(Op::TrySend);
                     a.push(Op::TryRecv);
+                    a.push(Op::Next);
+                    a.push(Op::Drain(VecState::Empty));
                     a
                 },
                 depth: if thorough { 9 } else { 7 },
@@ -232,6 +254,8 @@ pub fn suites(check: &str, thorough: bool) -> (Vec<SeqSuite>, String) {
                     Op::MoveStream(0),
                     Op::NewHandle(Side::R, Conv::Clone),
                     Op::NewHandle(Side::S, Conv::Clone),
+                    Op::DropHandle(Side::S),
+                    Op::DropHandle(Side::R),
                     Op::TryRecv,
                 ],
                 depth: if thorough { 6 } else { 5 },
@@ -406,13 +430,15 @@ impl Shape {
             Some(Side::R) if self.hr <= 0 => return false,
             _ => {}
         }
-        let any_live = self.live.iter().any(|x| *x != 0);
+        // a handle that a live future of its own side borrows stays
+        let live_s = self.live.iter().any(|x| *x == 1);
+        let live_r = self.live.iter().any(|x| *x == 2 || *x == 3);
         match o {
             Op::CloneFrom(Side::S) => self.hs += 1,
             Op::CloneFrom(Side::R) => self.hr += 1,
             Op::NewHandle(Side::S, c) => {
                 if c == Conv::ToOther {
-                    if any_live {
+                    if live_s {
                         return false;
                     }
                 } else {
@@ -421,7 +447,7 @@ impl Shape {
             }
             Op::NewHandle(Side::R, c) => {
                 if c == Conv::ToOther {
-                    if any_live {
+                    if live_r {
                         return false;
                     }
                 } else {
@@ -429,7 +455,7 @@ impl Shape {
                 }
             }
             Op::DropHandle(side) | Op::DropHandleUnwinding(side) => {
-                if any_live {
+                if (side == Side::S && live_s) || (side == Side::R && live_r) {
                     return false;
                 }
                 match side {
